@@ -34,6 +34,8 @@ def cases(tier, seed):
     defs += space.family_sing()
     # symbols declared with sympy assumptions (different objects from plain Symbol(name)), all or only some of them
     defs += [space.assumed(defs[13]), space.assumed(defs[25], ["x", "w"]), space.assumed(defs[17], ["y", "k"], "finite")]
+    # a declared control / calibration value that no expression uses (sorting before the used ones)
+    defs += [space.with_unused(defs[13]), space.with_unused(defs[17]), space.with_unused(defs[7])]
     # filters of equal and different shapes alive together, calls alternated between them
     inter = [space.bind_def(2, 1, 1, order=0), space.bind_def(2, 1, 1, order=3, tag="-twin"), space.bind_def(3, 2, 0, order=1),
              space.bind_def(2, 2, 2, order=2), space.bind_def(3, 2, 1, order=4)]
